@@ -2616,7 +2616,8 @@ class TLSConnection(TLSRecordLayer):
                     self._pickServerKeyExchangeSig(settings,
                                                    clientHello,
                                                    cert_chain,
-                                                   privateKey)
+                                                   privateKey,
+                                                   self.version)
             except TLSHandshakeFailure as alert:
                 for result in self._sendError(
                         AlertDescription.handshake_failure,
@@ -4419,7 +4420,8 @@ class TLSConnection(TLSRecordLayer):
             sigHash, serverCertChain, privateKey = \
                 self._pickServerKeyExchangeSig(settings, clientHello,
                                                serverCertChain,
-                                               privateKey)
+                                               privateKey,
+                                               self.version)
         except TLSHandshakeFailure as alert:
             for result in self._sendError(
                     AlertDescription.handshake_failure,
